@@ -17,9 +17,9 @@ from . import c12_model as M
 PID = 'C12'
 
 TIERS = {
-    'quick': {'big_thin': 4, 'files': 24, 'multiconf': 6, 'f3': 80, 'f5': 40, 'f6': 'all', 'f9': 40, 'f10': 80, 'f11': 'all', 'opt_every': 3,
+    'quick': {'f14_exh': 5, 'f14': 24, 'f15': 30, 'big_thin': 4, 'files': 24, 'multiconf': 6, 'f3': 80, 'f5': 40, 'f6': 'all', 'f9': 40, 'f10': 80, 'f11': 'all', 'opt_every': 3,
               'chunk': 160, 'max_min': 3},
-    'thorough': {'files': 64, 'multiconf': 14, 'f3': 'all', 'f5': 300, 'f6': 'all', 'f9': 400, 'f10': 'all', 'f11': 'all', 'opt_every': 1,
+    'thorough': {'f14_exh': 8, 'f14': 250, 'f15': 'all', 'files': 64, 'multiconf': 14, 'f3': 'all', 'f5': 300, 'f6': 'all', 'f9': 400, 'f10': 'all', 'f11': 'all', 'opt_every': 1,
                  'chunk': 400, 'max_min': 5, 'full': 260, 'full_partial': 'all'},
 }
 OPTION_SETS = ([], ['--protonate-all'], ['-k'])
@@ -113,6 +113,7 @@ REJECTION_CASES = [
 
 def build_jobs(base, wl, tier, cfg, log):
     rng = random.Random(base * 7919 + 12)
+    rng14 = random.Random(base * 7919 + 14)     # F14-F16 draw from their own stream
     chosen, multis = choose_files(wl, tier, cfg)
     files = {}
     cases = []
@@ -127,9 +128,16 @@ def build_jobs(base, wl, tier, cfg, log):
         files[fid] = {'text': inp['text'], 'stem': inp['stem'], 'census': True,
                       'multiconf': M.multi_conformation(recs)}
         faults = M.enumerate_faults(n, tier, rng, M.residue_bounds(recs))
+        faults += M.subset_faults(recs, tier, rng14, M.residue_bounds(recs))
+        faults += M.name_faults(recs, tier, rng14)
         exhaustive[fid] = {'records': n, 'F1': True, 'F2': True, 'F4': True,
                            'F3': tier['f3'] == 'all', 'F6': tier['f6'] == 'all',
-                           'F7': tier['f6'] == 'all'}
+                           'F7': tier['f6'] == 'all',
+                           'F14': 'every subset of every residue of at most %d records; %d seeded subsets of each '
+                                  'larger residue' % (tier.get('f14_exh', 0), tier.get('f14', 0)),
+                           'F15': 'every atom name' + (', every pair of names' if tier.get('f15') == 'all'
+                                                       else ', %d seeded pairs' % tier.get('f15', 0)),
+                           'F16': True}
         for k, fault in enumerate(faults):
             opt_i = 0
             if (k % tier['opt_every']) == 0:
@@ -521,12 +529,17 @@ def main(argv=None):
                          '0.02-0.9 (seeded sample); F10 two single records lost at most 12 records apart (all in '
                          'thorough, sample in quick); F11 two whole residues lost (every pair); F12/F13 the tail / '
                          'the head of one residue lost (every split point of every residue), also on two large '
-                         'fragments (~700-800 records) in which groups count as buried. Thorough adds the complete regression structures '
+                         'fragments (~700-800 records) in which groups count as buried; F14 subsets of the records '
+                         'of ONE residue (every proper non-empty subset of every residue of at most f14_exh records, '
+                         'a seeded sample of masks for larger residues and ligands: quick f14_exh=5, thorough 8); '
+                         'F15 every record bearing a given atom name lost file-wide (every name; every pair of names '
+                         'in thorough, seeded pairs in quick; backbone name groups); F16 only records bearing given '
+                         'names survive (CA-only, backbone-only, backbone+CB models). Thorough adds the complete regression structures '
                          'with sampled F1/F2/F3/F4/F6/F7. Cases are distinct by '
                          'sha256(faulted text, options, delivery); a case is trivial if every lost record is one '
                          'the reader ignores anyway (ignorable residue, hydrogen without -k) or nothing is lost.'),
                 'samples': samples,
-                'scope': 'RESTRICTED: storage/transport record-loss patterns at the reader seam, not arbitrary atom subsets',
+                'scope': 'RESTRICTED: storage/transport record-loss patterns at the reader seam (F1-F13), subsets of one residue (F14) and name-keyed systematic losses (F15/F16); not arbitrary atom subsets of the whole structure',
                 'cases_by_fault_kind': agg['by_kind'],
                 'cases_by_delivery': agg['deliveries'], 'cases_by_options': agg['options'],
                 'cases_expecting_ValueError': agg['expected_errors'],
@@ -540,8 +553,10 @@ def main(argv=None):
                 # F5, F9 and the complete-structure arm are seeded samples, so the
                 # run as a whole is not an exhaustive enumeration
                 'exhaustive': False,
-                'exhaustively_enumerated_families': (['F1', 'F2', 'F4', 'F6', 'F7', 'F8', 'F11']
-                                                     + (['F3', 'F10'] if tier['f3'] == 'all' else [])),
+                'exhaustively_enumerated_families': (['F1', 'F2', 'F4', 'F6', 'F7', 'F8', 'F11', 'F12', 'F13', 'F16']
+                                                     + (['F3', 'F10', 'F15'] if tier['f3'] == 'all' else [])),
+                'f14_exhaustive_up_to_records': tier.get('f14_exh', 0),
+                'f14_sampled_masks_per_larger_residue': tier.get('f14', 0),
                 'exhaustive_note': ('F1, F2, F4 exhaustive over every record boundary and F6, F7 over every pair of '
                                     'residue boundaries of every listed file'
                                     + ('; F3 exhaustive too' if tier['f3'] == 'all' else '; F3 and F5 sampled')),
